@@ -42,14 +42,45 @@ OUTWARD_ROOTS = [
 ]
 
 
-def xor_masked_fields(fn):
-    out = set()
+def _xor_sites(fn):
+    """[(stmt, fields of Context being XOR-ed, locals of type Context the destination belongs to)]"""
+    fl = vf.get_flow(fn)
+    out = []
     for b, bb in enumerate(fn.bbs):
+        if bb["cleanup"]:
+            continue
         for s in bb["s"]:
             if s["k"] == "a" and s["r"]["k"] == "bin" and s["r"]["op"] == "BitXor":
-                for e in s["d"][1]:
-                    if isinstance(e, dict) and e.get("a") == CTXT:
-                        out.add(e["n"])
+                flds = {e["n"] for e in s["d"][1] if isinstance(e, dict) and e.get("a") == CTXT}
+                roots = {s["d"][0]} if flds else set()
+                if not flds and s["d"][1] == ["*"]:
+                    # `*b ^= *k` with b obtained from iter_mut() over a field of the context
+                    seen, stack = set(), [s["d"][0]]
+                    while stack:
+                        l = stack.pop()
+                        if l in seen:
+                            continue
+                        seen.add(l)
+                        stack.extend(fl.deps[l])
+                    flds = {x[2] for x in fl.of_operand({"c": [s["d"][0], []]}) if x[0] == "field" and x[1] == CTXT}
+                    roots = {l for l in seen if fn.locals[l]["ty"].replace("&mut ", "").replace("&", "") == pp_ctx_ty(fn)}
+                if flds:
+                    out.append((s, flds, roots))
+    return out
+
+
+def pp_ctx_ty(fn):
+    for l in fn.locals:
+        t = l["ty"].replace("&mut ", "").replace("&", "")
+        if t.endswith("types::Context"):
+            return t
+    return CTXT
+
+
+def xor_masked_fields(fn):
+    out = set()
+    for _s, flds, _r in _xor_sites(fn):
+        out |= flds
     return out
 
 
@@ -91,10 +122,8 @@ def run(ctx):
                 base = vf.base_local_of_ref(sv, ps[0][1]["a"][2])
                 # the serialised value is the local that was XOR-ed (the clone), not the parameter
                 xl = set()
-                for b, bb in enumerate(sv.bbs):
-                    for s in bb["s"]:
-                        if s["k"] == "a" and s["r"]["k"] == "bin" and s["r"]["op"] == "BitXor":
-                            xl.add(s["d"][0])
+                for _s, _f, roots in _xor_sites(sv):
+                    xl |= roots
                 held = base in xl
             run.instance(R1, {"fn": "save_private_context", "obligation": "the value serialised is the masked clone"}, held=held)
             if not held:
